@@ -328,3 +328,40 @@ CHECKS["C24"] = dict(
     design_ref="DESIGN.md §4 C24", note="Histories are passed to TLC in micro-units (tolerance 2e-6). Runs that abort with an "
     "error report no history and are counted, not judged. Non-ground tunable facts and t(_,X) parameters are not generated.",
     technique="recorded learning histories judged by a TLA+ judge (TLC) plus an exact first-step EM oracle from the TLA+ Semantics spec")
+
+# --- extensions of the checks after round 1 (appended to the texts above) -------------------------------------------
+CHECKS["C03"]["text"] = (
+    "Layer B: Engine.tla models the main loop of StackBasedEngine message by message on propositional programs with "
+    "positive cycles, cycles under negation, negative loops and nested cycles (eval_define / clause / fact / call / conj / "
+    "neg; EvalDefine / EvalAnd / EvalNot records; the message stack with e/r/c messages; the define table incl. entries of "
+    "active goals; cycle_root, cycle children, cycle_close, checkCycle on table hits; the builder of FormulaBuilderOps as "
+    "target). TLC checks ResultCorrect (every reported node has the well-founded meaning of its query), TableSound, NoError, "
+    "NegCycleOnlyWhenCyclic, AnsweredOnlyWhenDefined, StackEmpty and NoDanglingMessages for every program of each family, "
+    "every query sequence, every order of every sibling batch and every closing order of a cycle. The pre-repair engine "
+    "variants are kept as configurations that must yield a counterexample (vacuity guard). Every terminal behaviour is "
+    "exported and replayed on the real engine with the same schedule and compared message by message (drift => Layer-A "
+    "judgement by JudgeEngine.tla). Beyond that fragment: every batch of sibling 'e' messages pushed by the default engine "
+    "is permuted (seeded) through the documented init_message_stack extension point on generated programs (cycles, ADs, "
+    "non-ground, evidence); each permuted run is judged by Semantics.tla and compared with the unpermuted run.")
+CHECKS["C03"]["note"] = (SEM_NOTE + " Engine.tla bounds: <= 3 (thorough: 4) propositional predicates, <= 2 clauses per predicate, "
+                         "<= 2 body literals, <= 3 queries; ADs, non-ground goals and the unbuffered modes are not modelled.")
+for _k in ("C01", "C07", "C08"):
+    CHECKS[_k]["text"] += (" Additional family: calls and heads with repeated variables and partially instantiated arguments "
+                           "(p(X,X), p(X,a), chains through repeated-variable heads).")
+CHECKS["C12"]["text"] += (" Random expression trees over plus/times/negate and n-ary sums/products are evaluated on the real "
+                          "semirings and compared with SemiringA!EvalX.")
+CHECKS["C17"]["text"] += (" Literal forms (signed numbers, exponents, quoted atoms that look like numbers or operators, control "
+                          "operators nested as arguments) are a separate family; every mismatch is reduced to its culprit "
+                          "parent/child operator edge, which is the identity used for known findings.")
+CHECKS["C18"]["text"] += " The == matrix is recorded before and after all hashes are taken; the two must be the same."
+CHECKS["C20"]["text"] += (" Case signatures carry the program's structure (AD present, conjunctions over disjoint choices, negation, "
+                          "all choices relevant); a read-once family isolates the evaluator from the MaxSAT encoding.")
+CHECKS["C25"]["text"] += " Programs with duplicated probabilistic statements are included."
+CHECKS["C26"]["text"] += (" Both kinds of wrapper are also put in ONE program, in either query order: a subquery must not see the "
+                          "evidence or queries of another.")
+CHECKS["C27"]["text"] += " Literal forms of numbers / strings / quoted atoms and extra junk tokens are part of the mutation alphabet."
+CHECKS["C28"]["text"] += (" Exported functions with several outputs are called under every binding mode of the outputs: ProbLog must "
+                          "report exactly the Python results that agree with the bound arguments.")
+CHECKS["C31"]["text"] += " Families with AD heads inside conjunctions and ADs whose heads collapse to one atom are included."
+CHECKS["C33"]["text"] += (" Probabilistic rule sets: the probability of every cut/2 answer is compared with the exact value TLC "
+                          "computes per possible world (JudgeCutProb.tla over Cut.tla).")
